@@ -3,7 +3,7 @@ from __future__ import annotations
 
 import ast
 
-from .model import FuncInfo, Model, walk_no_nested
+from .model import AnalysisError, FuncInfo, Model, walk_no_nested
 
 UTILS = "gallia.services.uds.core.utils"
 
@@ -107,3 +107,52 @@ def num_eval(expr: ast.expr, env: dict[str, float | int]):
     if isinstance(expr, ast.Call) and isinstance(expr.func, ast.Name) and expr.func.id in ("int", "float", "round") and len(expr.args) == 1 and not expr.keywords:
         return {"int": int, "float": float, "round": round}[expr.func.id](num_eval(expr.args[0], env))
     raise AnalysisError(f"expression outside the arithmetic language: {t}")
+
+
+def path_condition(root: ast.AST, target: ast.AST) -> list[tuple[ast.expr, bool]]:
+    """Tests of the `if` statements enclosing target (outermost first) with the polarity of the branch that contains it."""
+    out: list[tuple[ast.expr, bool]] = []
+
+    def visit(node: ast.AST, acc: list[tuple[ast.expr, bool]]) -> bool:
+        if node is target:
+            out.extend(acc)
+            return True
+        if isinstance(node, ast.If):
+            for b in node.body:
+                if visit(b, acc + [(node.test, True)]):
+                    return True
+            for b in node.orelse:
+                if visit(b, acc + [(node.test, False)]):
+                    return True
+            # the test itself
+            return any(x is target for x in ast.walk(node.test)) and (out.extend(acc) or True)
+        for c in ast.iter_child_nodes(node):
+            if visit(c, acc):
+                return True
+        return False
+    if not visit(root, []):
+        raise AnalysisError("path_condition: target is not inside root")
+    return out
+
+
+def truth_table(conds: list[tuple[ast.expr, bool]], atoms: dict[str, list], expect, oracle=None) -> list[str]:
+    """Evaluate the conjunction of (test, polarity) pairs for every combination of the atom values (a complete case analysis when the
+    atoms are only compared / tested for None); returns the rows on which it differs from expect(assignment)."""
+    import itertools
+    from . import miniterp
+    bad = []
+    keys = list(atoms)
+    for combo in itertools.product(*(atoms[k] for k in keys)):
+        env = dict(zip(keys, combo))
+        taken = True
+        try:
+            for test, pol in conds:
+                if bool(miniterp.eval_expr(test, env, oracle)) != pol:
+                    taken = False
+                    break
+        except AnalysisError:
+            raise
+        want = bool(expect(dict(zip(keys, combo))))
+        if taken != want:
+            bad.append(", ".join(f"{k}={v!r}" for k, v in zip(keys, combo)) + f" -> {'taken' if taken else 'skipped'}")
+    return bad
